@@ -42,7 +42,7 @@ def _bounds(entry, cfg, tier):
         cfg['max_expo'] = 2 * e if (len(cfg.get('I0') or [0]) <= 1 and graphs.ALL[cfg.get('graph', 'P3')][0] <= 3) else 6
     if entry == 'fast_nonMarkov_SIS':
         g_ = cfg.get('graph', 'P3')
-        cfg['max_infections'] = e if (len(cfg.get('I0') or [0]) <= 1 and graphs.ALL[g_][0] <= 3 and g_ != 'K3') else 3
+        cfg['max_infections'] = e if (len(cfg.get('I0') or [0]) <= 1 and graphs.ALL[g_][0] <= 3 and g_ != 'K3') else (3 if (len(cfg.get('I0') or [0]) <= 1 or g_ in ('K2', 'K2+K1', 'P3')) else 2)
         cfg['delays_per_pair'] = 1
     if 'discrete' in entry:
         cfg['tmax'] = 'steps:%d' % e
